@@ -184,10 +184,28 @@ func (RewardOracle) Step(si *engine.StepInfo) []engine.Finding {
 				out = append(out, fd("C08", "claim-amount", cmp(paid.GT(want)), fmt.Sprintf("%s claimed: paid %s block-reward coins, whole-coin part of its accrued share %s less recorded debt %s = %s", w.NameOf(claimer), paid, whole, debt, want)))
 			}
 		}
+		// reward coins that were used to repay the claimer's recorded collateral debt are spent as well
+		debtPre, debtPost := sdk.ZeroInt(), sdk.ZeroInt()
+		if d, ok := pre.Debts[claimer]; ok {
+			debtPre = d
+		}
+		if d, ok := post.Debts[claimer]; ok {
+			debtPost = d
+		}
+		fromWorker := sdk.ZeroInt()
+		for _, f := range si.Res.Flows {
+			if isModule(f.From) == "market" && f.To == node {
+				fromWorker = fromWorker.Add(f.Amt)
+			}
+		}
+		spent := paid
+		if repaid := debtPre.Sub(debtPost).Sub(fromWorker); repaid.IsPositive() {
+			spent = spent.Add(repaid)
+		}
 		if v, ok := g.Claimed[claimer]; ok {
-			g.Claimed[claimer] = v.Add(paid)
+			g.Claimed[claimer] = v.Add(spent)
 		} else {
-			g.Claimed[claimer] = paid
+			g.Claimed[claimer] = spent
 		}
 		for _, sp := range sortedKeys(pre.Pledges) {
 			if sp == claimer {
@@ -252,6 +270,7 @@ type RewardOpts struct {
 	Cfg   world.Config
 	Depth int
 	Store bool
+	Debt  bool // root: S1 stores a renewed shard whose collateral top-up it could not pay (recorded pledge debt)
 }
 
 func RewardScenario(o RewardOpts) *engine.Scenario {
@@ -263,6 +282,17 @@ func RewardScenario(o RewardOpts) *engine.Scenario {
 			a := w.A(s)
 			st = append(st, fixed(Tx("create", "create("+a.Name+")", &nodetypes.MsgCreate{Creator: a.S()})),
 				fixed(Tx("reset", "reset("+a.Name+",full)", &nodetypes.MsgReset{Creator: a.S(), Status: FullStatus})))
+		}
+		if o.Debt {
+			s1 := w.A(world.S1)
+			st = append(st,
+				fixed(Tx("addv", "addv(S1,setup)", &nodetypes.MsgAddVstorage{Creator: s1.S(), Size_: 10_000_000})),
+				fixed(Tx("store", "store(setup)", StoreMsg(w, StoreP{Signer: world.O, Relayer: world.G, Gateway: world.G, DataId: world.Data1, CommitId: world.Data1, Size: 1_000_000, Replica: 1, Duration: 3600, Timeout: 100}))),
+				CompleteNth(1, 0),
+				func(w *world.World, ctx sdk.Context) engine.Op {
+					return SendOp(w, world.S1, world.T, w.Bal(ctx, s1.Addr).SubRaw(30), "drain(setup)")
+				},
+				fixed(Tx("renew", "renew(setup)", RenewMsg(w, world.O, world.G, world.G, 7200, 100, world.Data1))))
 		}
 		return st
 	}}}
